@@ -9,7 +9,8 @@ def format_number(n, n_type):
         sn = str(n)
         if '.' in sn and 'e' not in sn:
             digits = len(sn) - 1
-            before_decimal = sn.index('.')
+            # (the minus sign is not a digit)
+            before_decimal = sn.lstrip('-').index('.')
             desired_total_digits = 7
             n = round(n, ndigits=desired_total_digits-before_decimal)
     s = str(n)
